@@ -173,6 +173,25 @@ def run(replay=None):
     ck.coverage["samples"] = [{"ops": h["ops"][:8], "cells": h["cells"][:8]} for h in hs[:2]]
     for h in hs:
         oracle(ck, h)
+    # scripted histories around a re-mock refused inside replaceFunc
+    scripted = [r for r in rows if r.get("kind") == "scripted"]
+    ck.notes["scripted_refused_remock"] = [{"scenario": r["scenario"], "steps": [(s["step"], s["entry"], bool(s["panic"])) for s in r["steps"]]} for r in scripted]
+    for r in scripted:
+        ref = [s for s in r["steps"] if s["step"] == "refused"]
+        if not ref or not ref[0]["panic"]:
+            continue    # this toolchain did not make the re-mock fail inside replaceFunc: nothing to judge
+        ck.coverage["evaluations"] += len(r["steps"])
+        for i, s in enumerate(r["steps"]):
+            if s["entry"] == "torn":
+                ck.impl_violation("torn-entry", "scripted history %d, step %d (%s): the entry of SumTo is neither pristine nor a complete jump" % (r["scenario"], i, s["step"]), r)
+                break
+            if s["step"] == "reset" and (s["entry"] != "pristine" or not s["original"]):
+                ck.impl_violation("not-pristine-after-reset", "scripted history %d: after step %d (Reset/Cancel, following %s) the entry of SumTo is %s and the function %s" % (
+                    r["scenario"], i, [x["step"] for x in r["steps"][:i]], s["entry"], "is original" if s["original"] else "does not answer as the original"), r)
+                break
+            if s["step"] == "refused" and s["entry"] == "jump" and i > 0 and r["steps"][i - 1]["entry"] != "jump":
+                ck.impl_violation("refused-remock-installs-a-jump", "scripted history %d: a re-mock goom refused (%s) left an entry jump on a function that was not mocked before it" % (r["scenario"], s["panic"]), r)
+                break
     # origin placeholders of every size 14..48 followed directly by foreign code: building the trampoline must never
     # touch a byte of the neighbour ("mocking one function never alters another")
     pobs = os.path.join(ck.wd, "obs_ph.jsonl")
